@@ -192,9 +192,19 @@ ObsFinal == [m \in Mbox |-> [next |-> W.final.mb[m].next,
                             msgs |-> [i \in DOMAIN W.final.mb[m].msgs |->
                                         LET t == W.final.mb[m].msgs[i] IN <<t[2], t[3], Visible(SeqToSet(t[5]))>>]]]
 
+(* ... and per session the EXPUNGEs that are queued for it when the window is over: they are exactly *)
+(* the removals that happened after the point at which the session's view was last made current     *)
+(* (a stale EXPUNGE left in the queue by a re-SELECT would be applied to the fresh view).            *)
+PendExpNow(s) == LET q == SelectSeq(ss[s].pend, LAMBDA it : it.k = "EXPUNGE") IN [i \in DOMAIN q |-> q[i].n]
+PendExpFinal(s) == LET q == SelectSeq(W.final.ss[s].pend, LAMBDA p : p[1] = "EXPUNGE") IN [i \in DOMAIN q |-> q[i][2]]
+(* (checked for the sessions that SELECTed in the window) *)
+PendOK == \A i \in CmdIds : (W.cmds[i].act = "Select" /\ W.cmds[i].status = "OK")
+                               => PendExpNow(W.cmds[i].sess) = PendExpFinal(W.cmds[i].sess)
+
 Accept ==
     /\ done = CmdIds /\ phase # [c \in CmdIds |-> "accepted"]
     /\ ObsNow = ObsFinal
+    /\ PendOK
     /\ PrintT(<<"LIN", tid>>)
     /\ phase' = [c \in CmdIds |-> "accepted"]
     /\ UNCHANGED <<msgs, files, fseq, next, dirty, force, ss, view, nextId, agent, last, tid, done, buf>>
